@@ -53,7 +53,7 @@ ASSUMPTIONS = [
   "reported as a violation (the implementation produced no outputs), not as a harness error",
 ]
 QUICK_S = 42
-THOROUGH_S = 780
+THOROUGH_S = 720
 
 CAPS = [1, 2, 3, 4, 5]
 Q = "pymtl3.stdlib.queues.queues"
@@ -83,6 +83,13 @@ BUBBLE_SIG = "enrdy.BypassQueue2RTL:enq_rdy_low_when_not_full"
 
 # experiments only (default: nothing skipped); skipped classes are counted in excluded_by_finding
 SKIP = {k for k in os.environ.get("VERIF_C17_SKIP", "").split(",") if k}
+
+
+
+class _BudgetGone(BaseException):
+  """raised inside the Hypothesis test once the wall budget is used up; not an Exception, so
+  Hypothesis neither treats it as a failure nor keeps generating the remaining examples"""
+
 
 _env = {}
 
@@ -612,12 +619,15 @@ def run_shard(ctx):
   @given(cases())
   def t(case):
     if ctx.out_of_time():
-      return
+      raise _BudgetGone()       # BaseException: leaves Hypothesis at once, no shrinking, no tail
     one(ctx, case)
     if ctx.evaluations % 397 == 0:
       ctx.sample(case)
 
-  ctx.run(t, "c17")
+  try:
+    ctx.run(t, "c17")
+  except _BudgetGone:
+    pass                        # recorded by ctx.out_of_time() as budget_exhausted
   ctx.extra["gen_table"] = sorted(GEN_TABLE)
 
 
